@@ -44,6 +44,7 @@ struct contract_violation { };
 
 } // namespace vh
 
+#ifndef VERIF_COMMON_NO_HANDLER   // a harness may install its own handler (C05 snapshots the object inside it)
 namespace etl {
 template <typename Assertion>
 [[noreturn]] auto assert_handler(Assertion const& msg) -> void
@@ -60,6 +61,7 @@ template <typename Assertion>
     std::_Exit(70);
 }
 } // namespace etl
+#endif
 
 namespace vh {
 
@@ -87,6 +89,13 @@ struct Toks {
     u64 unum()
     {
         auto const& s = str();
+        return std::strtoull(s.c_str(), nullptr, 10);
+    }
+    // a size_t argument: non-negative decimal up to 2^64-1, or a negative number meaning its two's complement
+    u64 sz()
+    {
+        auto const& s = str();
+        if (!s.empty() && s[0] == '-') { return static_cast<u64>(std::strtoll(s.c_str(), nullptr, 10)); }
         return std::strtoull(s.c_str(), nullptr, 10);
     }
     // length-prefixed list of integers
